@@ -441,6 +441,20 @@ func (fc *funcContext) translateStmt(stmt ast.Stmt, label *types.Label) {
 				}
 			}
 		case len(s.Lhs) == len(s.Rhs):
+			// The operands of index expressions on the left are evaluated before any of the
+			// assignments is carried out (i, a[i] = 1, 2 assigns to a[old i]).
+			lhss := make([]ast.Expr, len(s.Lhs))
+			for i, lhs := range s.Lhs {
+				lhs = astutil.RemoveParens(lhs)
+				lhss[i] = lhs
+				if ie, ok := lhs.(*ast.IndexExpr); ok && fc.pkgCtx.Types[ie.Index].Value == nil {
+					if _, isMap := fc.typeOf(ie.X).Underlying().(*types.Map); !isMap {
+						indexVar := fc.newLocalVariable("_index")
+						fc.Printf("%s = %s;", indexVar, fc.translateExpr(ie.Index))
+						lhss[i] = fc.setType(&ast.IndexExpr{X: ie.X, Lbrack: ie.Lbrack, Index: fc.newIdent(indexVar, fc.typeOf(ie.Index)), Rbrack: ie.Rbrack}, fc.typeOf(ie))
+					}
+				}
+			}
 			tmpVars := make([]string, len(s.Rhs))
 			for i, rhs := range s.Rhs {
 				tmpVars[i] = fc.newLocalVariable("_tmp")
@@ -450,10 +464,9 @@ func (fc *funcContext) translateStmt(stmt ast.Stmt, label *types.Label) {
 				}
 				fc.Printf("%s", fc.translateAssign(fc.newIdent(tmpVars[i], fc.typeOf(s.Lhs[i])), rhs, true))
 			}
-			for i, lhs := range s.Lhs {
-				lhs = astutil.RemoveParens(lhs)
+			for i, lhs := range lhss {
 				if !isBlank(lhs) {
-					fc.Printf("%s", fc.translateAssign(lhs, fc.newIdent(tmpVars[i], fc.typeOf(lhs)), s.Tok == token.DEFINE))
+					fc.Printf("%s", fc.translateAssign(lhs, fc.newIdent(tmpVars[i], fc.typeOf(lhs)), defines(lhs)))
 				}
 			}
 
